@@ -88,7 +88,8 @@ def families(eng, tier, seed):
         if n in ("bits_generic",) and False: continue
         for i in range(len(r)): fams.append(make_family("example-%s-%d" % (n, i), r, i, limit))
         ids = list(range(len(r))); rnd.shuffle(ids)
-        fams.append(exact_family("exact-%s" % n, r, sorted(ids[:6]) if tier == "quick" else sorted(ids[:20]), [seed * 3 + 1, 42, 7]))
+        chars = [i for i, t in enumerate(r) if t["def"] == ("primitive", "Char")]      # always exercised: the known char finding must show up on every run
+        fams.append(exact_family("exact-%s" % n, r, sorted(set((ids[:6] if tier == "quick" else ids[:20]) + chars)), [seed * 3 + 1, 42, 7]))
     for n in ("rec", "tree", "mutual", "enum", "tup", "containers"):
         r = C[n]
         for ti, vi, fi, f in c02.retarget_sites(r):
